@@ -59,7 +59,15 @@ func safeNormalise(p *pkgInfo) (inl map[string]int, ok bool) {
 			inl, ok = nil, false
 		}
 	}()
-	return normalisePkg(p, loadKnownFuncs()), true
+	known := loadKnownFuncs()
+	inl = normalisePkg(p, known)
+	for k, v := range inlineNewConsts(p, known) {
+		if inl == nil {
+			inl = map[string]int{}
+		}
+		inl["const:"+k] = v
+	}
+	return inl, true
 }
 
 func loadRaw(dir string) *pkgInfo {
